@@ -251,6 +251,9 @@ func TestC15(t *testing.T) {
 				c.c15Shared(s)
 				return
 			}
+			if expr == "long-source-line" {
+				return // re-run by the sub-check itself on every run
+			}
 			if expr == "equivalent-names" {
 				c.c15EquivalentNames(s, "print")
 				return
@@ -558,6 +561,45 @@ func TestC15(t *testing.T) {
 				}
 			}
 			c.Ev.MarkExhaustive(fmt.Sprintf("%d enclosing constructs x %d ways of ending x %d printed values", len(compounds), len(ends), len(vals)))
+		})
+		// script files with one very long source line — a string literal, an array literal, a comment — through the
+		// executable: every দেখাও before, on and after that line writes its line
+		c.Sub("long-source-lines", func(s *Sub) {
+			P := bn.KwPrint
+			var k int64
+			for _, n := range []int{65000, 65535, 65536, 65537, 70000, 131072, 200001, 1 << 20} {
+				for form := 0; form < 4; form++ {
+					k++
+					if !c.Mine(k) || (!c.Thorough && n > 200001) {
+						continue
+					}
+					var line, want string
+					switch form {
+					case 0:
+						body := strings.Repeat("\u09ac\u09be\u0982\u09b2\u09be ", n/16+1)
+						line, want = P+" \""+body+"\";", body
+					case 1:
+						body := strings.Repeat("ab ", n/3+1)
+						line, want = P+" \""+body+"\" + \"|\";", body+"|"
+					case 2:
+						line, want = P+" "+bn.BLen+"(["+strings.Repeat("1, ", n/3+1)+"1]);", fmt.Sprint(n/3+2)
+					default:
+						line, want = P+" \"after a long comment\"; // "+strings.Repeat("c", n), "after a long comment"
+					}
+					src := P + " \"start\";\n" + line + "\n" + P + " 1 + 2;\n" + P + " \"end\";\n"
+					cr := c.CLIScript(src, "", 60*time.Second)
+					c.Ev.EnumCase("long-source-lines", true, func() string { return fmt.Sprintf("form %d, a line of about %d bytes", form, len(line)) }, "long-source-line")
+					exp := "start\n" + want + "\n3\nend\n"
+					if cr.Truncated {
+						s.Harness("capture limit reached")
+					}
+					if cr.TimedOut || cr.Status != 0 || cr.Stdout != exp || cr.Stderr != "" {
+						s.Violation(Replay{Check: "print", Sig: "long-source-line", Source: fmt.Sprintf("form %d n %d", form, n), Extra: map[string]string{"expr": "long-source-line"},
+							Note:     fmt.Sprintf("a script whose second line is %d bytes long must print 4 lines (%d bytes) and exit 0", len(line), len(exp)),
+							Observed: fmt.Sprintf("status=%d stdout %d bytes starting %q, stderr=%q", cr.Status, len(cr.Stdout), clip(cr.Stdout, 60), clip(cr.Stderr, 200))})
+					}
+				}
+			}
 		})
 		c.Sub("shared-containers", func(s *Sub) {
 			if c.Shard != 0 {
